@@ -341,12 +341,24 @@ void cpp_mssm(std::ostream& out, const Par& p, bool force, bool slha)
    out << " setup=" << setup;
    if (setup == "OK") {
       // nonres=1: the functions without tan(beta) resummation (they rebuild the spectrum with tree-level Yukawas)
+      std::string amu_what = "-";
+      const auto evw = [&amu_what](const std::function<double()>& f) -> std::string {
+         try {
+            return hexd(f());
+         } catch (const std::exception& e) {
+            amu_what = e.what();
+            return std::string("EXC:") + exc_class(e);
+         } catch (...) {
+            return "EXC:unknown";
+         }
+      };
       if (P(p, "nonres") != 0) {
-         out << " amu=" << ev([&] { return calculate_amu_1loop_non_tan_beta_resummed(model)
-                                           + calculate_amu_2loop_non_tan_beta_resummed(model); });
+         out << " amu=" << evw([&] { return calculate_amu_1loop_non_tan_beta_resummed(model)
+                                            + calculate_amu_2loop_non_tan_beta_resummed(model); });
       } else {
-         out << " amu=" << ev([&] { return calculate_amu_1loop(model) + calculate_amu_2loop(model); });
+         out << " amu=" << evw([&] { return calculate_amu_1loop(model) + calculate_amu_2loop(model); });
       }
+      out << " amuwhat=" << esc(amu_what);
       out << " unc=" << ev([&] { return calculate_uncertainty_amu_2loop(model); });
    } else {
       out << " amu=NA unc=NA";
